@@ -1,6 +1,7 @@
 package vc
 
 import (
+	"bytes"
 	"context"
 	"fmt"
 	"os"
@@ -24,6 +25,7 @@ type Session struct {
 	Parallel  int
 	ContractFiles []string
 	LoadTime  float64
+	IdenticalInstances map[string]int
 }
 
 const ModulePath = "github.com/uhppoted/uhppote-core"
@@ -63,7 +65,8 @@ func NewSession(repo, specDir, work string) (*Session, error) {
 		return nil, err
 	}
 	ex.IndexFunctions()
-	s := &Session{Ex: ex, RepoDir: repo, SpecDir: specDir, WorkDir: work, TimeoutS: 10, Parallel: 8, ContractFiles: files}
+	ex.RunInits()
+	s := &Session{Ex: ex, RepoDir: repo, SpecDir: specDir, WorkDir: work, TimeoutS: 10, Parallel: 8, ContractFiles: files, IdenticalInstances: map[string]int{}}
 	s.LoadTime = time.Since(start).Seconds()
 	return s, nil
 }
@@ -83,7 +86,31 @@ func (s *Session) Generate(key string) []*FuncResult {
 		return []*FuncResult{{Key: key, Error: "function not found in the program"}}
 	}
 	var out []*FuncResult
+	// instantiations of a generic function whose SSA bodies are identical up to the name of
+	// the instance are verified once
+	seenBody := map[string]string{}
 	for _, fn := range fns {
+		if len(fns) > 1 {
+			var buf bytes.Buffer
+			fn.WriteTo(&buf)
+			body := buf.String()
+			if i := strings.Index(body, "\n0:"); i >= 0 {
+				body = body[i:]
+			}
+			root := fn
+			for root.Parent() != nil {
+				root = root.Parent()
+			}
+			for _, t := range root.TypeArgs() {
+				body = strings.ReplaceAll(body, t.String(), "$T")
+			}
+			if prev, ok := seenBody[body]; ok {
+				_ = prev
+				s.IdenticalInstances[key]++
+				continue
+			}
+			seenBody[body] = fn.String()
+		}
 		k := key
 		if len(fn.TypeArgs()) > 0 {
 			targs := []string{}
@@ -109,6 +136,9 @@ func (s *Session) DischargeAll(results []*FuncResult, sub string) {
 			_ = i
 			jobs = append(jobs, o)
 		}
+	}
+	if os.Getenv("GOVC_PROGRESS") != "" {
+		fmt.Fprintf(os.Stderr, "generated %d open obligations\n", len(jobs))
 	}
 	dir := filepath.Join(s.WorkDir, sub)
 	os.RemoveAll(dir)
@@ -148,6 +178,9 @@ func (s *Session) DischargeAll(results []*FuncResult, sub string) {
 			res, all := Discharge(o.File, to)
 			mu.Lock()
 			o.Status, o.Solver, o.Time, o.AllRes = res.Status, res.Solver, res.Time, all
+			if os.Getenv("GOVC_PROGRESS") != "" {
+				fmt.Fprintf(os.Stderr, "done %-8s %6.2fs %s %s\n", res.Status, res.Time, o.FullName(), o.File)
+			}
 			mu.Unlock()
 		}(o)
 	}
